@@ -48,14 +48,16 @@ MergeStepCT(lm, c) ==
                   new == Exact(ScoreCT(C.mm, Inst(r, PredsOf(lm, r) \cup {p})))
               IN IF DefBetter(C.mm, new, old) THEN lm \cup {c} ELSE lm
          ELSE IF DefBeats(C.mm, ScCT[c], C.thr) THEN lm \cup {c} ELSE lm
-RECURSIVE MergeCT(_, _)
-MergeCT(lm, Cs) ==
-    LET C1 == {c \in Cs : c[2] \notin PredsIn(lm)} IN
-    IF C1 = {} THEN {lm}
+MergeSuccCT(f) ==
+    LET C1 == {c \in f.C : c[2] \notin PredsIn(f.lm)} IN
+    IF C1 = {} THEN {[lm |-> f.lm, C |-> {}]}
     ELSE LET B == Best(C.mm, ScCT, C1)
              free == {c \in B : \A d \in C1 : d = c \/ (d[1] # c[1] /\ d[2] # c[2])}
              pick == IF free # {} THEN {CHOOSE c \in free : TRUE} ELSE B
-         IN UNION {MergeCT(MergeStepCT(lm, c), C1 \ {c}) : c \in pick}
+         IN {[lm |-> MergeStepCT(f.lm, c), C |-> C1 \ {c}] : c \in pick}
+RECURSIVE MergeBfsCT(_)
+MergeBfsCT(F) == IF \A f \in F : f.C = {} THEN {f.lm : f \in F} ELSE MergeBfsCT(UNION {MergeSuccCT(f) : f \in F})
+MergeCT(lm, Cs) == MergeBfsCT({[lm |-> lm, C |-> Cs]})
 
 LabelMaps ==
     CASE C.input = "MAT"    -> {{<<R.same[i].r, R.same[i].p>> : i \in 1..Len(R.same)}}
